@@ -95,7 +95,12 @@ def _check_case(d, transport, f_replace, tmpdir):
     logging.disable(logging.NOTSET)
     with warnings.catch_warnings():
         warnings.simplefilter("ignore")
-        model = iomodels.build(d)
+        if "bench_op" in d:
+            from .c11 import bench_model
+
+            model = bench_model(d["bench_op"])
+        else:
+            model = iomodels.build(d)
         before = sbml_view(model)
         try:
             m2, path = write_read(model, transport, f_replace, tmpdir)
@@ -376,6 +381,14 @@ def run_task(payload):
                     violations.append(({"source": "file", "file": os.path.basename(item[1]), "problem": kind},
                                        {"file": item[1]}, f"{item[1]}\n{kind}\n{detail}"))
                 continue
+            if item[0] == "bench":
+                from ..benchsearch import _t
+
+                op = _t(item[1]) if item[1] is not None else None
+                for kind, detail in _check_case({"bench_op": op}, item[2], "default", tmpdir):
+                    violations.append(({"source": "bench", "problem": kind, "bench_op": item[1][0] if item[1] else "none"},
+                                       {"bench": item[1], "transport": item[2]}, f"bench after {item[1]}\n{kind}\n{detail}"))
+                continue
             if item[0] == "third":
                 probs, verdict = check_third_party(item[1], tmpdir)
                 stats["third_" + verdict.replace(" ", "_")] = stats.get("third_" + verdict.replace(" ", "_"), 0) + 1
@@ -432,6 +445,13 @@ def replay(case):
         if "file" in case:
             probs, _ = check_file(case["file"], tmpdir)
             return [{"sig": {"source": "file", "file": os.path.basename(case["file"]), "problem": k}, "detail": d} for k, d in probs]
+        if "bench" in case:
+            from ..benchsearch import _t
+
+            op = _t(case["bench"]) if case["bench"] is not None else None
+            probs = _check_case({"bench_op": op}, case["transport"], "default", tmpdir)
+            return [{"sig": {"source": "bench", "problem": k, "bench_op": case["bench"][0] if case["bench"] else "none"},
+                     "detail": dd} for k, dd in probs]
         if "third" in case:
             probs, _ = check_third_party(tuple(case["third"]), tmpdir)
             return [{"sig": {"source": "third_party", "features": "+".join(case["third"]), "problem": k}, "detail": d}
@@ -475,6 +495,13 @@ def explore(ctx):
     cases = cases[off:] + cases[:off]
     payloads = [{"cases": cases[i:i + 20]} for i in range(0, len(cases), 20)]
     payloads += [{"cases": [f]} for f in files] + [{"cases": third[i:i + 6]} for i in range(0, len(third), 6)]
+    from .. import bench
+    from ..benchsearch import _l
+
+    bench_ops = [None] + [o for o in bench.alphabet(ctx.tier) if o[0] not in ("enter", "exit", "exit_exc", "optimize",
+                                                                           "slim_optimize", "tolerance")]
+    bcases = [("bench", _l(o) if o is not None else None, "path") for o in bench_ops]
+    payloads += [{"cases": bcases[i:i + 10]} for i in range(0, len(bcases), 10)]
     stats = {}
     with ctx.pool(timeout=2400) as pool:
         for i, status, r0 in pool.imap(payloads):
@@ -485,7 +512,9 @@ def explore(ctx):
                         (st1, res1), = pool.map([{"cases": [c]}])
                         r1 = ctx.collect(st1, res1)
                         if r1 is None and st1 in ("abort", "timeout"):
-                            if c[0] in ("file", "third"):
+                            if c[0] == "bench":
+                                ctx.violation({"source": "bench", "problem": "process " + st1}, {"bench": c[1], "transport": c[2]}, st1)
+                            elif c[0] in ("file", "third"):
                                 ctx.violation({"source": c[0], "problem": "process " + st1}, {c[0]: c[1]}, st1)
                             else:
                                 s = sig_of(c[0], c[1], c[2], "process " + st1 + " (GLPK abort or hang)")
@@ -505,7 +534,7 @@ def explore(ctx):
                 "path; f_replace={} for SBML-safe ids) + %d shipped SBML files + third-party shapes (%d single, all pairs) "
                 "derived with libsbml; oracles: validator, content equality to 15 digits, idempotence, independent libsbml "
                 "extraction with log capture" % (len(files), len(THIRD_PARTY)),
-        "exhaustive": True, "family_cases": len(cases), "files": len(files), "third_party_documents": len(third), "stats": stats,
+        "exhaustive": True, "family_cases": len(cases), "bench_corpus_states": len(bcases), "files": len(files), "third_party_documents": len(third), "stats": stats,
     })
     ctx.sample({"features_off_default": iomodels.describe(models[len(models) // 2]), "transport": "path"})
     ctx.sample({"third_party": list(third[3][1])})
